@@ -261,7 +261,7 @@ class C18(Check):
         searches = {0: [], 1: []}
         for t in range(n):
             for m, r in zip(metas[t], R[t]):
-                if m["op"] in ("find_all", "find_own"):
+                if m["op"] in ("find_all", "find_own", "priv_find"):
                     searches[prog["tokens"][t]].append((r["t0"], r["t1"], t))
 
         def raced(tok, t, r):
@@ -283,6 +283,8 @@ class C18(Check):
                     if not any(L["t0"] <= W["t1"] for L in outs):
                         raise bad("C_Login on token %d returned CKR_OK although the user was logged in from the start and nobody could have logged out before" % k)
 
+        self._writes = writes
+
         def logout_overlaps(tok, r):
             return any(W["state"] == "out" and W.get("who") and W["t0"] <= r["t1"] and W["t1"] >= r["t0"] for W in writes[tok])
         # ---- objects: creation / destruction intervals of every thread's objects ---------------------------------
@@ -291,6 +293,7 @@ class C18(Check):
         randoms = []
         for t in range(n):
             hk = {"raced_search": False, "c0": 0, "dead": False}
+            gk = {"raced_search": False, "c0": 0}
             live, sess_open, dead = {}, {}, set()      # dead: creations that failed as listed known finding (nothing can be said about them)
             tok = prog["tokens"][t]
             for i, (m, r) in enumerate(zip(metas[t], R[t])):
@@ -329,7 +332,8 @@ class C18(Check):
                             continue
                         raise bad("%s: creating a public object failed: %s" % (where, K.rvname(rv)))
                     live[m["k"]] = {"label": b"l0".hex(), "tainted": tainted, "raced_search": raced(tok, t, r), "c0": r["t0"]}
-                    objs[m["val"]] = {"tok": tok, "c": (r["t0"], r["t1"]), "d": None, "thread": t, "token_obj": m["token"], "tainted": tainted}
+                    objs[m["val"]] = {"tok": tok, "c": (r["t0"], r["t1"]), "d": None, "thread": t, "token_obj": m["token"], "tainted": tainted,
+                                      "raced_search": raced(tok, t, r)}
                     handles.append((r["h"], where))
                 elif op in ("find_own", "set", "read", "destroy") and m["k"] in dead:
                     continue
@@ -439,8 +443,13 @@ class C18(Check):
                     if rv != 0:
                         raise bad("%s: C_GenerateKey failed: %s" % (where, K.rvname(rv)))
                     handles.append((r["h"], where))
+                    gk = {"raced_search": raced(tok, t, r), "c0": r["t0"]}
                 elif op == "genkey_read":
                     v = r["attrs"][str(K.CKA_VALUE)]
+                    if v[0] == K.CKR_OBJECT_HANDLE_INVALID and gk["raced_search"] and \
+                            any(W["state"] == "out" and W.get("who") and W["t0"] <= r["t1"] and W["t1"] >= gk["c0"] for W in writes[tok]) and \
+                            ctx.known({"op": "own_public_object_use", "rv": "CKR_OBJECT_HANDLE_INVALID", "creation_overlaps": "search_by_other_thread", "after": "C_Logout"}):
+                        continue
                     if v[0] != 0 or len(v[1]) != 32:
                         raise bad("%s: generated key value unreadable: %s" % (where, v))
                     randoms.append((v[1], where))
@@ -536,6 +545,9 @@ class C18(Check):
             created_before = o["c"][1] < iv[0]
             maybe_destroyed = o["d"] is not None and o["d"][0] <= iv[1]
             if created_before and not maybe_destroyed:
+                if o.get("raced_search") and any(W["state"] == "out" and W.get("who") and W["t0"] <= iv[1] and W["t1"] >= o["c"][0] for W in self._writes[tok]) and \
+                        self._ctx.known({"op": "own_public_object_use", "rv": "CKR_OBJECT_HANDLE_INVALID", "creation_overlaps": "search_by_other_thread", "after": "C_Logout"}):
+                    continue        # its (shared) handle was registered as private by the racing search: a logout invalidates it under the searching thread's feet
                 if o.get("tainted") and self._ctx.known({"op": "token_object_write", "overlaps": "search_by_other_thread", "deviation": "attribute_lost"}):
                     continue
                 raise bad("%s: does not find object %s of thread %d, created before the search was invoked and never destroyed (lost)" % (
